@@ -6,7 +6,7 @@ From Okv Require Import Model.Lit Model.LitSpec Model.Syntax Model.Comb Model.Pa
   Model.DocGrammar Model.RoundTripSpec
   Proofs.CombSpec Proofs.ParseTotal Proofs.DocAccept Proofs.DisplayLines Proofs.RoundTripBase
   Proofs.RoundTripNum Proofs.RoundTripPosting Proofs.RoundTripTxn Proofs.RoundTripDirective
-  Proofs.RoundTripSame.
+  Proofs.RoundTripSame Proofs.RoundTripNo41.
 Import ListNotations.
 Open Scope N_scope.
 
@@ -33,14 +33,15 @@ Lemma follow_txn_nl : forall k, follow_txn (10 :: k).
 Proof. reflexivity. Qed.
 
 Theorem entry_fmt : forall w fuel e k, wf_entry e = true ->
+  (entry_open_paren e = true -> no41 (print_entry w e ++ 10 :: k) = true) ->
   (length (print_entry w e ++ 10%N :: k) <= fuel)%nat ->
   exists e' sps, parse_ledger_entry fuel (print_entry w e ++ 10 :: k) = POk (e', sps) (10 :: k) /\
                  same_entry e e'.
 Proof.
-  intros w fuel e k W L. destruct e as [t | | | | | |];
+  intros w fuel e k W OP L. destruct e as [t | | | | | |];
     try (destruct (directive_roundtrip w fuel _ k W I L) as (e' & E & Se); exists e', []; split; assumption).
   cbn [wf_entry print_entry] in *.
-  destruct (transaction_fmt w fuel t (10 :: k) W (follow_txn_nl k) L) as (t' & sps & E & St).
+  destruct (transaction_fmt w fuel t (10 :: k) W (follow_txn_nl k) OP L) as (t' & sps & E & St).
   exists (STxn t'), sps. split; [| exact St].
   destruct (print_txn_head w t W) as (c & r & Ec & Hc).
   destruct (digit_dispatch c Hc) as (D1 & D2 & D3 & D4 & D5 & _).
@@ -106,8 +107,14 @@ Qed.
 Lemma blank_prefix : forall R B, (B = [] \/ B = [10]) -> blank_text R B.
 Proof. intros R B [-> | ->]; [constructor | constructor; [reflexivity | constructor]]. Qed.
 
+Lemma wf_ledger_all : forall es, wf_ledger es = true -> forallb wf_entry es = true.
+Proof.
+  induction es as [| e es IH]; intros H; [reflexivity |]. cbn [wf_ledger forallb] in *.
+  rewrite !andb_true_iff in H. destruct H as [[H1 _] H3]. rewrite H1, (IH H3). reflexivity.
+Qed.
+
 Lemma loop_fmt : forall w s es B n acc,
-  forallb wf_entry es = true -> (B = [] \/ B = [10]) ->
+  wf_ledger es = true -> (B = [] \/ B = [10]) ->
   suffix (B ++ format_entries w es) s -> (length (B ++ format_entries w es) < n)%nat ->
   exists es', entries_loop (length s) n (utf8_encode s) (utf8_len s) (B ++ format_entries w es) acc
               = LOk (rev acc ++ es') /\
@@ -120,8 +127,14 @@ Proof.
     + rewrite app_nil_r. reflexivity.
     + apply vertical_space_ok; [apply blank_prefix; exact HB | exact I |].
       apply suffix_length in Sfx. exact Sfx.
-  - assert (HR : solid (format_entries w (e :: es))) by (apply format_solid; exact W).
-    cbn [forallb] in W. apply andb_true_iff in W. destruct W as [We Wes].
+  - assert (HR : solid (format_entries w (e :: es))) by (apply format_solid, wf_ledger_all; exact W).
+    cbn [wf_ledger] in W. rewrite !andb_true_iff in W. destruct W as [[We Wop] Wes].
+    assert (OP : entry_open_paren e = true ->
+                 no41 (print_entry w e ++ 10 :: format_entries w es) = true).
+    { intros Eo. rewrite Eo in Wop. cbn [negb orb] in Wop. apply andb_true_iff in Wop.
+      destruct Wop as [N1 N2]. rewrite no41_app. rewrite (print_entry_no41 w e N1).
+      unfold no41 at 1. cbn [forallb]. fold (no41 (format_entries w es)).
+      rewrite (format_entries_no41 w es N2). reflexivity. }
     rewrite format_cons in *.
     remember (print_entry w e ++ 10 :: format_entries w es) as i eqn:Hi.
     assert (V : vertical_space (length s) (B ++ i) = POk tt i).
@@ -129,8 +142,8 @@ Proof.
       apply suffix_length in Sfx. exact Sfx. }
     assert (SR : suffix i s).
     { eapply suffix_trans; [| exact Sfx]. now exists B. }
-    pose proof (suffix_length _ _ SR) as LR. rewrite Hi in LR.
-    destruct (entry_fmt w (length s) e (format_entries w es) We LR) as (e' & sps & E & Se).
+    pose proof (suffix_length _ _ SR) as LR. rewrite Hi in LR. rewrite Hi in OP.
+    destruct (entry_fmt w (length s) e (format_entries w es) We OP LR) as (e' & sps & E & Se).
     rewrite <- Hi in E.
     destruct (print_entry_head w e We) as (c & r & Ec & _).
     assert (Ine : i <> []) by (rewrite Hi, Ec; discriminate).
@@ -153,7 +166,7 @@ Proof.
     + cbn [map e_entry]. constructor; assumption.
 Qed.
 
-Theorem format_roundtrip : forall w es, forallb wf_entry es = true ->
+Theorem format_roundtrip : forall w es, wf_ledger es = true ->
   exists es', parse_ledger (format_entries w es) = LOk es' /\ same_meaning es (map e_entry es').
 Proof.
   intros w es W. unfold parse_ledger.
@@ -171,14 +184,14 @@ Definition format_text (w : str -> nat) (s : str) : option str :=
   end.
 
 Theorem format_preserves : forall w s es,
-  parse_ledger s = LOk es -> forallb wf_entry (map e_entry es) = true ->
+  parse_ledger s = LOk es -> wf_ledger (map e_entry es) = true ->
   exists es', parse_ledger (format_entries w (map e_entry es)) = LOk es' /\
               same_meaning (map e_entry es) (map e_entry es').
 Proof. intros w s es _ W. apply format_roundtrip. exact W. Qed.
 
 Theorem format_idempotent : forall w s t,
   format_text w s = Some t ->
-  (forall es, parse_ledger s = LOk es -> forallb wf_entry (map e_entry es) = true) ->
+  (forall es, parse_ledger s = LOk es -> wf_ledger (map e_entry es) = true) ->
   format_text w t = Some t.
 Proof.
   intros w s t H W. unfold format_text in *. destruct (parse_ledger s) as [es | | | |] eqn:E; try discriminate.
